@@ -64,7 +64,6 @@ func c14Value(v *V, n int) string {
 	return s
 }
 
-
 // H_C14_lines: two entries, noise lines at every position, one optional
 // faulty line of a symbolic class at a symbolic position.
 func H_C14_lines(v *V) {
@@ -195,7 +194,39 @@ func H_C14_lines(v *V) {
 	}
 }
 
+// H_C14_long: a value and a comment longer than the reader's buffer sizes do
+// not change what the other lines mean.
+func H_C14_long(v *V) {
+	L := v.Shape("L")
+	fill := make([]byte, L)
+	for i := range fill {
+		fill[i] = 'x'
+	}
+	tail := c14Value(v, 1)
+	where := v.Choice(2)
+	var text, wantS string
+	if where == 0 {
+		wantS = string(fill) + tail
+		text = "str = " + wantS + "\nnum = 7\n"
+	} else {
+		wantS = "before"
+		text = "str = before\n; " + string(fill) + tail + "\nnum = 7\n"
+	}
+	d := &c14Decl{}
+	p := NewNamedParser("prog", None)
+	p.AddGroup("Application Options", "", d)
+	err := NewIniParser(p).Parse(strings.NewReader(text))
+	vObsErr(v, err)
+	v.Reach("long")
+	v.Assert(err == nil, "arbitrarily long lines are read")
+	if err == nil {
+		v.Assert(len(d.S) == len(wantS) && v.EqStr(d.S, wantS), "a long value is read completely")
+		v.Assert(d.N == 7, "the lines around a long line keep their meaning")
+	}
+}
+
 func init() {
+	vHarnesses["H_C14_long"] = H_C14_long
 	vHarnesses["H_C14_bytes"] = H_C14_bytes
 	vHarnesses["H_C14_lines"] = H_C14_lines
 }
